@@ -995,9 +995,9 @@ proof fn lemma_pow2_ge32(n: nat)
 }
 
 // float leaves of HllSketch (verified dispatch in unit hll_api, C01): uninterpreted here
-uninterp spec fn mode_est(m: &Mode) -> f64;
-uninterp spec fn mode_ub(m: &Mode, s: NumStdDev) -> f64;
-uninterp spec fn mode_lb(m: &Mode, s: NumStdDev) -> f64;
+uninterp spec fn mode_est(m: Mode) -> f64;
+uninterp spec fn mode_ub(m: Mode, s: NumStdDev) -> f64;
+uninterp spec fn mode_lb(m: Mode, s: NumStdDev) -> f64;
 enum NumStdDev {
 One = 1 , Two = 2 , Three = 3 , }
 
@@ -1089,11 +1089,11 @@ self . lg_config_k }
 
     // float leaves (dispatch verified in unit hll_api): uninterpreted results
     #[verifier::external_body]
-    fn estimate(&self) -> (r: f64) ensures r == mode_est(&self.mode) { unimplemented!() }
+    fn estimate(&self) -> (r: f64) ensures r == mode_est(self.mode) { unimplemented!() }
     #[verifier::external_body]
-    fn upper_bound(&self, num_std_dev: NumStdDev) -> (r: f64) ensures r == mode_ub(&self.mode, num_std_dev) { unimplemented!() }
+    fn upper_bound(&self, num_std_dev: NumStdDev) -> (r: f64) ensures r == mode_ub(self.mode, num_std_dev) { unimplemented!() }
     #[verifier::external_body]
-    fn lower_bound(&self, num_std_dev: NumStdDev) -> (r: f64) ensures r == mode_lb(&self.mode, num_std_dev) { unimplemented!() }
+    fn lower_bound(&self, num_std_dev: NumStdDev) -> (r: f64) ensures r == mode_lb(self.mode, num_std_dev) { unimplemented!() }
 
     // verified in unit hll_api (C02.is_empty): sparse modes answer from the coupon COUNT, arrays from their registers;
     // lemma_empty_len turns the count into "no coupon retained" for a well-formed sparse mode
@@ -1590,17 +1590,17 @@ self . gadget . is_empty ( ) }
 
 
     fn estimate ( & self ) -> ( r : f64 ) ensures
-/*@C03.estimate.delegates*/ r == mode_est ( & self . gadget . mode ) {
+/*@C03.estimate.delegates*/ r == mode_est ( self . gadget . mode ) {
 self . gadget . estimate ( ) }
 
 
     fn upper_bound ( & self , num_std_dev : NumStdDev ) -> ( r : f64 ) ensures
-/*@C03.bounds.delegate*/ r == mode_ub ( & self . gadget . mode , num_std_dev ) {
+/*@C03.bounds.delegate*/ r == mode_ub ( self . gadget . mode , num_std_dev ) {
 self . gadget . upper_bound ( num_std_dev ) }
 
 
     fn lower_bound ( & self , num_std_dev : NumStdDev ) -> ( r : f64 ) ensures
-/*@C03.bounds.delegate*/ r == mode_lb ( & self . gadget . mode , num_std_dev ) {
+/*@C03.bounds.delegate*/ r == mode_lb ( self . gadget . mode , num_std_dev ) {
 self . gadget . lower_bound ( num_std_dev ) }
 
 
